@@ -63,7 +63,7 @@ impl Engine for C19 {
     fn rule(&self) -> String {
         "link_to / link_to_hash / WriteOpts::link_to* (sync and async, both builds) over target contents of 0 B, around the 8-byte probe and the 16 KiB read buffer, and larger; \
          target given absolute or relative (relative cases run in a driver process whose working directory is 0-3 levels below the sandbox root); 0-3 partial reads through the linker \
-         before commit; the address may already exist as regular content; declared size / integrity matching or not; after linking the target is left alone, modified in place, \
+         before commit (for relative targets also a change of the working directory between opening the linker and its commit); the address may already exist as regular content; declared size / integrity matching or not; after linking the target is left alone, modified in place, \
          truncated, removed or replaced, or the entry is removed through the cache (remove_hash, full removal, clear: the user's file stays). Oracle: returned address == model digest of the target; reads by key and by address, streams and metadata.size give the target's bytes / \
          length as of link time; the content path is a symlink resolving to the target (or the untouched pre-existing regular file); no regular file holding the data appears under \
          the cache; target bytes, inode and mtime are unchanged by the library; after a post-link change reads give an integrity or I/O error, never other bytes; mismatching \
@@ -87,6 +87,15 @@ impl Engine for C19 {
                         for fl in [Fl::Sync, Fl::Async] {
                             n += 1;
                             let pre_reads = if oneshot { vec![] } else { [vec![], vec![1], vec![7], vec![9, 20000], vec![len + 10], vec![usize::MAX], vec![3, usize::MAX], vec![usize::MAX - 1]][n % 8].clone() };
+                            // relative target through the builder: every third case changes the working directory between opening the linker and its commit
+                            let pre_reads = if !oneshot && relative && (n / 8) % 3 == 0 {
+                                let mut p = pre_reads;
+                                let at = if p.is_empty() { 0 } else { 1 };
+                                p.insert(at, crate::exec::LINK_CHDIR);
+                                p
+                            } else {
+                                pre_reads
+                            };
                             let post = [Post::None, Post::Modify, Post::Truncate, Post::Remove, Post::Replace, Post::ModifyKeepMtime, Post::WriteSameTmpElsewhere, Post::ModifyThenWriteSame, Post::RemoveThroughCache][(n / 2) % 9];
                             let mut link = mk_link(if keyed { Some(0) } else { None }, relative, oneshot, ALGOS[n % 5], pre_reads, if n % 3 == 0 { Declare::Exact } else { Declare::None }, if n % 4 == 0 { IntegDecl::Correct } else { IntegDecl::None });
                             // the relative target spelled through a symlinked directory and `..`
@@ -133,6 +142,10 @@ impl Engine for C19 {
                 }
                 if !link.oneshot && link.pre_reads != vec![usize::MAX] {
                     link.pre_reads = pre;
+                }
+                if !link.oneshot && relative && cwd_depth % 2 == 0 {
+                    let at = link.pre_reads.len().min(1);
+                    link.pre_reads.insert(at, crate::exec::LINK_CHDIR);
                 }
                 link.dotdot_via_symlink = relative && cwd_depth % 2 == 1 && preexisting == (link.blob == 0);
                 let prior_link = !relative && !preexisting && cwd_depth == 2;
@@ -393,6 +406,9 @@ impl Engine for C19 {
         }
         if c.link.pre_reads.contains(&usize::MAX) {
             st.class("read_to_end_before_commit");
+        }
+        if c.link.pre_reads.contains(&crate::exec::LINK_CHDIR) && c.link.relative {
+            st.class("working_directory_changed_between_open_and_commit");
         }
         if c.link.dotdot_via_symlink {
             st.class("relative_target_through_symlink_and_dotdot");
